@@ -8,10 +8,18 @@ they came through `from_slice`.
 * `a + b`, `a - b` (all four reference forms have the same body): `self.point() ± other.point()`, then `compress()`.
 * `sk * &pk`, `&sk * &pk`, `pk * &sk`: `scalar * point()`, then `compress()`.
 * `PublicKey::from_private_key`: `&scalar * ED25519_BASEPOINT_TABLE`, then `compress()`.
-* `sk + sk`, `sk * sk`, `sk * u8`: dalek `Scalar` addition / multiplication = arithmetic modulo `l` on the little-endian value,
-  result stored reduced.
-Point arithmetic is that of curve25519-dalek (a dependency); it is modelled by the extended-coordinate formulas of
-`Ref/Ed25519.lean` followed by the RFC 8032 compression, which is what dalek's `compress` of the same group element gives. -/
+* `sk + sk`, `sk * sk`, `sk * u8`: dalek `Scalar` addition / multiplication, transcribed at the level of the integer value of
+  the five 52-bit limbs (`UnpackedScalar` = `Scalar52`, backend/serial/u64/scalar.rs): `add` = limb-wise sum then `sub(sum, L)`
+  (a borrow-and-add-back subtraction, which reduces only when the operands are reduced); `mul` = two Montgomery reductions
+  (`montgomery_reduce(mul_internal(a, b))`, then the same with `RR = R² mod l`, `R = 2^260`). That these compute the sum /
+  product modulo `l` ON ACCEPTED KEYS is a theorem (`Proofs/KeyOps.lean`), not the definition.
+Point arithmetic is that of curve25519-dalek (a dependency). ADDITION and SUBTRACTION are transcribed from dalek
+(edwards.rs `Add/Sub for &EdwardsPoint` = `(self ± &other.as_projective_niels()).as_extended()`, backend/serial/curve_models:
+`ProjectiveNielsPoint`, `CompletedPoint`): `toNiels`, `dalekAdd`, `dalekSub` below, written separately from `Ed.add` / `Ed.sub`
+(that they compute the same coordinates is a theorem: `Proofs/KeyOps.lean dalekAdd_eq`, `dalekSub_eq`). SCALAR MULTIPLICATION
+(`keySmul`, `keyPubOf`: dalek uses signed radix-16 windows / a precomputed base-point table) and the final `compress()` are NOT
+modelled independently: they call `Ed.smul` and `Ed.encodePt` of the reference `Ref/Ed25519.lean` — the same functions the spec side
+of the driver calls. The operand path (`point()` = the permissive decompression of the STORED bytes, `none` = panic) is the model's own. -/
 namespace Monero.Keys
 open Ed
 
@@ -23,16 +31,42 @@ def keyPoint (k : Bytes) : Option Pt := if k.length != 32 then none else decompr
 /-- `PublicKey { point: point.compress() }` (stored bytes) -/
 def keyOfPoint (P : Pt) : Bytes := encodePt P
 
+/-- dalek `ProjectiveNielsPoint` (Y+X, Y−X, Z, 2dT) -/
+structure Niels where (ypx ymx z t2d : Nat)
+/-- `EdwardsPoint::as_projective_niels` (`constants::EDWARDS_D2` = 2d mod p) -/
+def toNiels (P : Pt) : Niels := ⟨(P.y + P.x) % p, (P.y + p - P.x) % p, P.z, P.t * (2 * d % p) % p⟩
+/-- `CompletedPoint::as_extended` of ((X : Z), (Y : T)) -/
+def completedToExtended (X Y Z T : Nat) : Pt := ⟨X * T % p, Y * Z % p, Z * T % p, X * Y % p⟩
+/-- `&EdwardsPoint + &EdwardsPoint` = `(self + &other.as_projective_niels()).as_extended()` -/
+def dalekAdd (a b : Pt) : Pt :=
+  let n := toNiels b
+  let PP := (a.y + a.x) % p * n.ypx % p
+  let MM := (a.y + p - a.x) % p * n.ymx % p
+  let TT2d := a.t * n.t2d % p
+  let ZZ := a.z * n.z % p
+  let ZZ2 := (ZZ + ZZ) % p
+  completedToExtended ((PP + p - MM) % p) ((PP + MM) % p) ((ZZ2 + TT2d) % p) ((ZZ2 + p - TT2d) % p)
+/-- `&EdwardsPoint - &EdwardsPoint` = `(self - &other.as_projective_niels()).as_extended()` (the Niels coordinates of `other`
+are used crosswise and the roles of Z and T of the completed point are exchanged; `other` is not negated) -/
+def dalekSub (a b : Pt) : Pt :=
+  let n := toNiels b
+  let PM := (a.y + a.x) % p * n.ymx % p
+  let MP := (a.y + p - a.x) % p * n.ypx % p
+  let TT2d := a.t * n.t2d % p
+  let ZZ := a.z * n.z % p
+  let ZZ2 := (ZZ + ZZ) % p
+  completedToExtended ((PM + p - MP) % p) ((PM + MP) % p) ((ZZ2 + p - TT2d) % p) ((ZZ2 + TT2d) % p)
+
 /-- `Add<PublicKey> for PublicKey` and its three reference forms -/
 def keyAdd (a b : Bytes) : Option Bytes :=
   match keyPoint a, keyPoint b with
-  | some P, some Q => some (keyOfPoint (Ed.add P Q))
+  | some P, some Q => some (keyOfPoint (dalekAdd P Q))
   | _, _ => none
 
 /-- `Sub<PublicKey> for PublicKey` and its three reference forms -/
 def keySub (a b : Bytes) : Option Bytes :=
   match keyPoint a, keyPoint b with
-  | some P, some Q => some (keyOfPoint (Ed.sub P Q))
+  | some P, some Q => some (keyOfPoint (dalekSub P Q))
   | _, _ => none
 
 /-- `Mul<&PublicKey> for PrivateKey`, `Mul<&PublicKey> for &PrivateKey`, `Mul<&PrivateKey> for PublicKey` (scalar bytes `s`) -/
@@ -44,12 +78,34 @@ def keySmul (s k : Bytes) : Option Bytes :=
 /-- `PublicKey::from_private_key` -/
 def keyPubOf (s : Bytes) : Bytes := keyOfPoint (Ed.smul (Ed.leNat s) Ed.G)
 
-/-- `Add for PrivateKey` (four forms): `self.scalar + other.scalar` -/
-def scalarAdd (a b : Bytes) : Bytes := Ed.toBytesLE ((Ed.leNat a + Ed.leNat b) % l) 32
-/-- `Mul<PrivateKey> for PrivateKey`: `self.scalar * other.scalar` -/
-def scalarMul (a b : Bytes) : Bytes := Ed.toBytesLE ((Ed.leNat a * Ed.leNat b) % l) 32
-/-- `Mul<u8> for PrivateKey`: `self.scalar * Scalar::from(other)` -/
-def scalarMulU8 (a : Bytes) (n : Nat) : Bytes := Ed.toBytesLE ((Ed.leNat a * (n % 256)) % l) 32
+/-! ### dalek `Scalar52` arithmetic on the integer value of the limbs -/
+/-- the Montgomery radix: five 52-bit limbs -/
+def R260 : Nat := 2 ^ 260
+/-- `Scalar52::sub(a, b)` (a, b < 2^260): limb-wise difference modulo 2^260 with a borrow chain; when the last borrow is
+set (a < b) the constant `L` is added back, again limb-wise modulo 2^260 -/
+def sc52Sub (a b : Nat) : Nat :=
+  let diff := (a + R260 - b) % R260
+  if a < b then (diff + l) % R260 else diff
+/-- `Scalar52::add(a, b)`: limb-wise sum with carries (the top carry is dropped: 260 bits), then `sub(sum, L)` -/
+def sc52Add (a b : Nat) : Nat := sc52Sub ((a + b) % R260) l
+/-- `−l⁻¹ mod 2^260`; dalek's `LFACTOR` is its lowest limb (`lFactor % 2^52 = 0x51da312547e1b`), applied limb by limb -/
+def lFactor : Nat := 1460841127323026145909195535181282744217281446807063794674545094323019697126939
+/-- `constants::RR` = `R² mod l` (the value of the five limbs in constants.rs) -/
+def scRR : Nat := 4185850391763183796333492317919282507600454137915443218209456916606550724923
+/-- `Scalar52::montgomery_reduce(x)` on the integer value of the 9-limb product: `m = x·(−l⁻¹) mod R`, `(x + m·l) / R`
+(exact division), then `sub(·, L)` -/
+def montReduce (x : Nat) : Nat :=
+  let m := (x % R260) * lFactor % R260
+  sc52Sub ((x + m * l) / R260) l
+/-- `Scalar52::mul(a, b)`: `montgomery_reduce(a·b)` then `montgomery_reduce(ab · RR)` -/
+def sc52Mul (a b : Nat) : Nat := montReduce (montReduce (a * b) * scRR)
+
+/-- `Add for PrivateKey` (four forms): `self.scalar + other.scalar` = `UnpackedScalar::add(unpack, unpack).pack()` -/
+def scalarAdd (a b : Bytes) : Bytes := Ed.toBytesLE (sc52Add (Ed.leNat a) (Ed.leNat b)) 32
+/-- `Mul<PrivateKey> for PrivateKey`: `self.scalar * other.scalar` = `UnpackedScalar::mul(unpack, unpack).pack()` -/
+def scalarMul (a b : Bytes) : Bytes := Ed.toBytesLE (sc52Mul (Ed.leNat a) (Ed.leNat b)) 32
+/-- `Mul<u8> for PrivateKey`: `self.scalar * Scalar::from(other)` (`Scalar::from(n: u8)` = the bytes `[n, 0, …, 0]`; `n < 256`) -/
+def scalarMulU8 (a : Bytes) (n : Nat) : Bytes := Ed.toBytesLE (sc52Mul (Ed.leNat a) n) 32
 
 /-- the harness operations: `from_slice` on each operand (`none` = an operand is refused), then the operator
 (`some none` = the operator panics) -/
